@@ -1,6 +1,7 @@
 """C16 (point-in-polygon exact) and C04 (polygon-constrained fields): Polygon.tla + replay + random real polygons."""
 from __future__ import annotations
 
+import copy
 import json
 import math
 import random
@@ -267,6 +268,30 @@ def _replay_c04(item):
     return bad
 
 
+def _domain_via_manager(prop, ng, b_min, b_max_x, b_max_y, rnd):
+    """The candidate fields as a user gets them: manager setter -> geometry object -> set_design -> DesignBiRectangleConstrained. A single
+    outline / zone is sometimes given in the bare form [[x, y], ...] that the constructor accepts."""
+    import contextlib  # noqa: PLC0415
+    import io  # noqa: PLC0415
+    import warnings  # noqa: PLC0415
+
+    from ghedesigner.manager import GHEManager  # noqa: PLC0415
+
+    from .p_history import SLOTS, apply_set  # noqa: PLC0415
+
+    m = GHEManager()
+    with warnings.catch_warnings(), contextlib.redirect_stdout(io.StringIO()):
+        warnings.simplefilter("ignore")
+        for s_ in SLOTS:
+            if s_ != "geom":
+                apply_set(m, s_, 1, nominal=1)
+        prop_arg = prop[0] if len(prop) == 1 and rnd.random() < 0.5 else prop
+        ng_arg = ng[0] if len(ng) == 1 and rnd.random() < 0.6 else ng
+        m.set_geometry_constraints_bi_rectangle_constrained(b_min=b_min, b_max_x=b_max_x, b_max_y=b_max_y, property_boundary=prop_arg, no_go_boundaries=ng_arg)
+        m.set_design(flow_rate=0.3, flow_type_str="borehole")
+    return m._design.coordinates_domain_nested, m._design.fieldDescriptors
+
+
 def _b2_c04(seed):
     """End to end: polygonal_land_constraint on random real-valued outlines; every candidate judged with the exact classifier."""
     import_repo()
@@ -304,7 +329,10 @@ def _b2_c04(seed):
         prop = [[list(p) for p in o] for o in outlines]
         ng = [[list(p) for p in o] for o in nogos]
         try:
-            dom, desc = polygonal_land_constraint(b_min, b_max_x, b_max_y, prop, ng)
+            if rnd.random() < 0.5:
+                dom, desc = polygonal_land_constraint(b_min, b_max_x, b_max_y, prop, ng)
+            else:
+                dom, desc = _domain_via_manager(copy.deepcopy(prop), copy.deepcopy(ng), b_min, b_max_x, b_max_y, rnd)
         except ValueError:
             continue    # an empty list after the cut (reorder_domain on nothing): lots too thin for any borehole
         # the grid spans [0, max x] x [0, max y] over ALL vertices of ALL outlines - computed here, not with the library's helper
